@@ -237,6 +237,24 @@ Proof.
     rewrite IH by (intros a' s y Ha'; apply H; now right). reflexivity.
 Qed.
 
+(* the same for the tolerant loop: the same attributes survive *)
+Lemma decode_attributes_tol_eq : forall u mF mA l,
+  (forall a s y, In a l -> (at_name a =? DW_AT_GNU_locviews) = false -> In s (at_sites a) ->
+                 In y (conv_refs u s) -> agree mF mA y) ->
+  map (decode_attr mF) (cv_attributes_tol u mF l) = map (decode_attr mA) (cv_attributes_tol u mA l).
+Proof.
+  intros u mF mA l. induction l as [|a l IH]; intros H; [reflexivity|].
+  cbn [cv_attributes_tol]. destruct (at_name a =? DW_AT_GNU_locviews) eqn:E.
+  - apply IH. intros a' s y Ha'. apply H. now right.
+  - assert (Hd : dec mF (cv_sites u mF (at_sites a)) = dec mA (cv_sites u mA (at_sites a))).
+    { apply dec_sites. intros s y Hs Hy. apply (H a s y); auto. now left. }
+    assert (IH' : map (decode_attr mF) (cv_attributes_tol u mF l) = map (decode_attr mA) (cv_attributes_tol u mA l)).
+    { apply IH. intros a' s y Ha'. apply H. now right. }
+    destruct (cv_sites u mF (at_sites a)) as [l1| | |], (cv_sites u mA (at_sites a)) as [l2| | |];
+      cbn in Hd; try discriminate; try exact IH'.
+    cbn [map]. rewrite IH'. unfold decode_attr at 1 3. cbn [ca_name ca_body ca_refs]. inversion Hd. reflexivity.
+Qed.
+
 (* every id a conversion puts into an attribute was found in entry_ids *)
 Lemma cv_site_ids : forall u m s l id, cv_site u m s = Ok l -> In id l -> exists y, im_get y m = Some id.
 Proof.
@@ -349,4 +367,33 @@ Proof.
     exists y. split.
     + apply im_src_in; auto. now apply im_get_in.
     + apply HkF. apply im_get_in in Hy. apply in_map_iff. exists (y, id). auto.
+Qed.
+
+Lemma no_dangling_written_full : forall (dbg : bool) (req : N -> bool) (aunits : list aunit),
+  wf_offsets (map unit_of aunits) -> wf_layout (map unit_of aunits) ->
+  exists S mF,
+    reserved filter_refs dbg req (map unit_of aunits) = Ok S /\
+    ids_filtered dbg req (map unit_of aunits) = Ok mF /\
+    forall au e out a id, cv_entry_attrs (unit_of au) mF e = Ok out -> In a out -> In id (ca_refs a) ->
+      exists y, im_src id mF = Some y /\ (is_root (map unit_of aunits) y \/ In y S).
+Proof.
+  intros dbg req aunits Hwf Hlay.
+  destruct (same_attributes_full dbg req aunits Hwf Hlay) as [S [mF [H1 [H2 [_ [_ H3]]]]]].
+  exists S, mF. auto.
+Qed.
+
+(* ========================================================================================== *)
+(* split DWARF: with one unit in the .dwo section the split path reserves what the ordinary path reserves *)
+Lemma split_single_unit_full : forall rf (dbg : bool) (req : N -> bool) (u : unitd),
+  wf_offsets [u] -> wf_layout [u] ->
+  convert_split_filtered rf dbg req [u] = convert_filtered rf dbg req [u].
+Proof.
+  intros rf dbg req u Hwf Hlay.
+  destruct (filtered_ids rf dbg req [u] Hwf Hlay) as [S [ids [HS [Hsort [Hin [Hsl _]]]]]].
+  unfold convert_split_filtered, convert_filtered. rewrite HS. cbn [bind]. rewrite Hsl. cbn [bind map reserve_all].
+  rewrite app_nil_r.
+  assert (Hf : filter (in_unit u) S = S).
+  { apply filter_all_true. intros x Hx. apply Hin in Hx. apply reach_valid in Hx.
+    destruct (valid_covered _ _ Hlay Hx) as [u' [[<-|[]] Hx']]. exact Hx'. }
+  now rewrite Hf.
 Qed.
